@@ -137,7 +137,8 @@ def gen_case(rng):
                     srcs.append({"kind": "meas", "mode": int(rng.choice(cand_meas))})
                 else:
                     name = str(rng.choice(["a", "b", "c"]))
-                    free.setdefault(name, float(rng.uniform(-0.8, 0.8)))
+                    # (boundary: a parameter bound to exactly 0.0, or to the integer 1, is a binding like any other)
+                    free.setdefault(name, float(rng.uniform(-0.8, 0.8)) if rng.random() < 0.8 else [0.0, 0.0, 1][int(rng.integers(3))])
                     srcs.append({"kind": "free", "name": name})
             hsrc = [k for k in cand_meas if k in het]
             if hsrc and rng.random() < 0.7:
